@@ -102,7 +102,7 @@ class I(Interp):
                 idx = self.eval(e["i"], env)
                 if idx == Term("expr"):
                     return self.cfg["expr"]
-                return Obj("LocalDef", mutable=self.cfg.get("mutable"), value=(Term("value") if self.cfg.get("has_value") else None))
+                return Obj("LocalDef", mutable=self.cfg.get("mutable"), value=(Term("value-of-local") if self.cfg.get("has_value") else None))
             if base.startswith("self.tys["):
                 return TyM(self.cfg.get("is_type", False), True, self.cfg.get("file", False))
         if e.get("k") == "un" and e["op"] == "*" and e["e"].get("k") == "index":
@@ -113,8 +113,17 @@ class I(Interp):
 
     def default_method(self, recv, m, args, e):
         if m in ("push", "extend") and canon(e["r"]) == "to_check":
-            self.pushed.append(canon(e["a"][0]))
+            # provenance of what is queued for the same check: the evaluated value, not its spelling
+            v = args[0] if args else None
+            if isinstance(v, tuple) and not isinstance(v, Term) and len(v) == 2:
+                self.pushed.append(v[1])
+            else:
+                self.pushed.append(Term("text", canon(e["a"][0])))
             return None
+        if isinstance(recv, Obj) and recv.name == "self" and m not in ("clone",):
+            # a helper method of the context that the abstraction does not model: its result is opaque (and in
+            # particular is NOT the binding's own value / the global's own body)
+            return Term("opaque", m)
         if isinstance(recv, TyM):
             if m == "is_array":
                 return recv.is_arr
@@ -186,7 +195,7 @@ def r15b(ctx, run):
     fn, m, rows = classifier_rows(ctx)
     F = "GlobalInferenceCtx::get_const"
     for kind, cfg, is_type, res, pushed in rows:
-        what = "get_const step(%s %s, type-valued=%s) = %s%s" % (kind, cfg, is_type, res, (" queueing " + "; ".join(p[:40] for p in pushed)) if pushed else "")
+        what = "get_const step(%s %s, type-valued=%s) = %s%s" % (kind, cfg, is_type, res, (" queueing " + "; ".join(repr(p)[:40] for p in pushed)) if pushed else "")
         key = "%s:%s:t%d" % (kind, ",".join("%s=%s" % kv for kv in sorted(cfg.items())), is_type)
         want = None
         need_push = None
@@ -217,9 +226,11 @@ def r15b(ctx, run):
             want = "Const" if is_type else "Runtime"
         good = want is None or res == want or (want == "Const|Runtime" and res in ("Const", "Runtime"))
         if good and need_push:
-            good = any(need_push in p for p in pushed)
+            wantv = Term("value-of-local") if need_push == "value" else Term("global_body")
+            good = any(p == wantv for p in pushed)
             if not good:
-                run.finding(F, "no-transitive-check:" + key, fn.file, m["ln"], what + ": classified Const without queueing its %s for the same check — a binding to a runtime value would be const" % need_push)
+                run.finding(F, "no-transitive-check:" + key, fn.file, m["ln"], what + ": classified Const without queueing its own %s for the same check (queued: %s) — a binding "
+                            "to a runtime value, directly or through an alias, would be const" % ({"value": "value (the binding's initialiser)", "global_body": "body"}[need_push], pushed))
                 continue
         if good:
             run.ok(fn.site(m["ln"]), what)
